@@ -224,6 +224,39 @@ class _InlineTemps(ast.NodeTransformer):
         return False
 
 
+_CMP_SWAP = {ast.Lt: ast.Gt, ast.Gt: ast.Lt, ast.LtE: ast.GtE, ast.GtE: ast.LtE, ast.Eq: ast.Eq, ast.NotEq: ast.NotEq}
+
+
+def _cmp_rank(e):
+    if isinstance(e, ast.Constant):
+        return 3
+    if isinstance(e, ast.UnaryOp) and isinstance(e.operand, ast.Constant):
+        return 3
+    if isinstance(e, ast.Attribute) and isinstance(e.value, ast.Name) and e.value.id[:1].isupper() and e.attr.isupper():
+        return 2  # Enum member / class constant: Location.BOTH, CompressMode.YES
+    return 0
+
+
+class _CanonCompare(ast.NodeTransformer):
+    """Normal form of single comparisons (behaviour-preserving for the side-effect-free operands it touches): the more constant
+    operand goes right (`0 < x` -> `x > 0`, `Location.BOTH == where` -> `where == Location.BOTH`); between two equally ranked
+    operands the source order is kept (rules treat both orientations alike)."""
+
+    def visit_Compare(self, node):
+        self.generic_visit(node)
+        if len(node.ops) != 1 or type(node.ops[0]) not in _CMP_SWAP:
+            return node
+        l, r = node.left, node.comparators[0]
+        if any(isinstance(x, (ast.Call, ast.Yield, ast.Await, ast.NamedExpr)) for e in (l, r) for x in ast.walk(e)):
+            return node
+        rl, rr = _cmp_rank(l), _cmp_rank(r)
+        swap = rl > rr
+        if swap:
+            node.left, node.comparators[0] = r, l
+            node.ops = [_CMP_SWAP[type(node.ops[0])]()]
+        return node
+
+
 class Program:
     def __init__(self, repo=None, extra_files=()):
         self.repo = repo or REPO
@@ -246,6 +279,7 @@ class Program:
                 tree = ast.parse(src, filename=path)
             except SyntaxError as exc:
                 raise AnalysisError(f'cannot parse {path}: {exc}') from exc
+            tree = _CanonCompare().visit(tree)
             tree = _Canon().visit(tree)
             tree = _InlineTemps().visit(tree)
             name = fname[:-3]
